@@ -64,6 +64,7 @@ class Run:
         self.extra = {}
         self.findings = load_findings(pid)
         self._n = 0
+        self.advisory_default = False   # set by the runner while an extension spec is being checked
 
     # ------------------------------------------------------------------ util
     def tmp(self, name):
@@ -252,6 +253,7 @@ class Run:
         advisory=True is for *extension* specifications (behaviour of the subsystem beyond
         the listed property): a rejected trace is recorded in the evidence and printed as
         EXT-MISMATCH, never as a VIOLATION of the property, and does not affect the exit code."""
+        advisory = advisory or self.advisory_default
         lines = [ln for ln in open(trace_file).read().splitlines() if ln.strip()]
         starts = []
         for i, ln in enumerate(lines):
